@@ -15,6 +15,46 @@ CHECKS = {
    text="(a) the real UdpClientStream over a scripted socket under the paused tokio clock: every sequence of <=4 (quick) / <=5 (thorough) forged/genuine datagrams incl. late replies to earlier sockets and tie cases; (b) the real DnsMultiplexer polled manually: BFS with state matching over send/deliver/duplicate/unknown-id/undecodable/cancel/timer/error/end/poll events for <=3 requests to depth 9/12. Every schedule/transition is executed on the implementation and judged by a reference acceptance predicate computed from raw bytes and a reference routing table.",
    note="Trusted: vref::wire, the scripted socket/stream and hand-fired timers faithfully stand in for the OS; event-level (not thread-level) schedules; ids are those observed on the wire.",
    design="6/C16, 11"),
+ "C01": dict(level="exploration", engine="E-ENUM",
+   technique="exhaustive bounded enumeration of byte strings (all short strings, all strings over a structural alphabet, complete single-edit neighbourhoods of a seed corpus, parameterised growth families) through every decoding entry point, with a deterministic work counter",
+   text="All byte strings of length <=2/3 (full byte alphabet) and <=6/7 (14-octet structural alphabet) as message body behind 15 headers, as record, as name at every offset and as RDATA of 89 type codes; the complete 1-edit (thorough: 2-edit over S) neighbourhoods of 136/248 encoded seed messages; 22 adversarial growth families up to 65,535 octets; through Message::from_vec, Request::from_bytes, DnsResponse::from_buffer, the TSIG splitter, Record/Name/RData::read. Oracle: returns (no panic, watchdog), decoder ticks <= 256*len+4096 and no super-linear growth curve, every decoded name <=255 octets / labels <=63 measured from the label iterator.",
+   note="Trusted: the tick hook counts all decoder loop work; constants calibrated from a linear worst-case family (147.5 ticks/octet). Not covered: strings >7 octets outside the edit neighbourhoods and growth families; wall-clock time.",
+   design="6/C01, 11"),
+ "C02": dict(level="exploration", engine="E-ENUM",
+   technique="exhaustive bounded enumeration of messages built from a record alphabet (all placements of <=2/3 records, header/EDNS/TSIG products, compression sweeps) and of all accepted byte strings of the C01 families, against an independent wire walker and RFC-written RDATA octets",
+   text="Direction 1: every message of <=2 (quick) / <=3 (thorough) records from a 76-shape RDATA alphabet (octets hand-written from the RFCs) in all section placements x questions x EDNS x TSIG, all 2^7 flags x opcodes x rcodes, compression sweeps n=0..200 and pointer offsets around 0x3fff; oracle decode(encode(m))==m field by field with case-sensitive names plus RFC RDATA octets found by vref::wire. Direction 2: every string of the C01 families that decodes and re-encodes: decode(encode(decode(b)))==decode(b) and octet-identical RDATA for non-compressible types.",
+   note="Trusted: vref::wire, the hand-written RFC RDATA octets. OPT RDATA and pointer expansion inside non-compressible RDATA are observations (as upstream's fuzz target). Messages of >3 records only in the sweeps.",
+   design="6/C02, 11"),
+ "C04": dict(level="exploration", engine="E-ENUM",
+   technique="exhaustive enumeration of all names over a small octet alphabet and of ALL ordered pairs (and triples) of them against a reference comparator; all constructors at the length boundaries; wire/text round trips at every offset and compression scenario",
+   text="All absolute/relative names of 0..2(3) labels over 9-15 boundary octets plus 62/63-octet labels: all ordered pairs (1e9 quick, 5.6e9 thorough) for eq/hash/cmp of Name, LowerName, RrKey, Label against vref::name (ASCII folding, RFC 4034 6.1 order), all triples for transitivity; wire round trip of 25 k names x 5 offsets x 10 compression scenarios x 3 encodings preserving case; text round trip of 384 k host-style names; 720 label-length vectors around 63/255 through every constructor and combinator.",
+   note="Trusted: vref::name. Octets outside the alphabets, IDNA and relative names on the wire are not covered.",
+   design="6/C04, 11"),
+ "C05": dict(level="exploration", engine="E-ENUM",
+   technique="exhaustive enumeration of small RRsets (every ordered sequence with repetition of 1..3/5 values per type, every input order, duplicates, mixed case) x RRSIG parameter tuples, byte-compared with an independent RFC 4034/4035/6840 canonical encoder, plus sign/verify cross-checks with ring",
+   text="2,177 RRset shapes of 19/22 types x owners x case swaps x TTL patterns x classes x RRSIG tuples x every Labels value: TBS bytes must equal vref::canon (RRSIG RDATA with lower-cased signer, distinct RRs in canonical RDATA order, wildcard-reduced lower-cased owner, original TTL, 6.2 canonical RDATA). Every shape is signed by the built-in signer and verified by the built-in verifier and by ring over the reference bytes, and reference bytes signed with ring must verify with the built-in verifier, for RSASHA256/512, ECDSA P-256/P-384, Ed25519.",
+   note="Trusted: vref::canon, ring. RDATA outside the per-type alphabets, RSASHA1/DSA not covered.",
+   design="6/C05, 11"),
+ "C11": dict(level="exploration", engine="E-ENUM",
+   technique="exhaustive enumeration of a structured request product, all prefixes and single-byte substitutions of 40 representative requests and all short strings over a structural alphabet, x catalog shapes x access lists x UDP/TCP, each followed by a probe query, against a reference front door written from the statement",
+   text="8 M (quick) / 76 M (thorough) raw requests through the real server front door (Server::with_access + hook verif_handle_raw_request -> Catalog -> in-memory zones): 10 catalog shapes x 14 access-list configurations x UDP/TCP x ids/opcodes/flags/section counts/qnames (incl. pointer forms, 255/256-octet names)/qtypes/qclasses/16 EDNS variants, every prefix and substitution of 40 seeds, all strings over S behind fixed headers. Oracle: 0 responses iff <12 octets or QR=1 else exactly 1 with QR and id; decoded question echo; rcode in the SET the statement admits; answering zone = longest suffix (TXT markers); no panic; probe answer unchanged.",
+   note="Trusted: the reference front door (crates/c11/src/frontdoor.rs), vref::wire. Three-valued 'body parses' so grey inputs are only tolerated, never demanded. DoT/DoH/DoQ front ends and applied updates are not covered.",
+   design="6/C11, 11"),
+ "C18": dict(level="fault_enumeration", engine="E-ENUM+E-SCHED",
+   technique="exhaustive enumeration of fault assignments to 1..4 scripted servers x strategies x concurrency x TCP availability, deviation-bounded (d<=2/3) latency/fault schedules, and caller arrival/cancellation plans, on the real pool under virtual time",
+   text="The real NameServerPool/NameServer over a scripted ConnectionProvider under the paused tokio clock (hook clock routed to it, SRTT pinned): 115 k / 938 k runs of the coarse product {answer, NXDOMAIN, TC-then-TCP, timeout, io-error, busy} ^ n x ordering strategies x num_concurrent_reqs x TCP x trust; all schedules with <=2/3 deviations from 'every server answers fast' over a 15-symbol deviation alphabet; 2-3 identical callers with arrivals and one cancellation around every upstream event. Oracle: completes within options.timeout (virtual), healthy answer whenever every admissible reading of the search reaches one before the deadline, trust rule for NXDOMAIN, TC never returned when TCP is healthy, identical callers share one exchange.",
+   note="Trusted: the scripted connections stand in for the network; event-level schedules; DecayingSrtt reads the real clock (affects only later ordering under QueryStatistics, excluded from digests).",
+   design="6/C18, 11"),
+ "C19": dict(level="fault_enumeration", engine="E-ENUM+E-FAULT",
+   technique="exhaustive enumeration of small simulated internets from a zone-graph grammar x hostile-zone injections (kind x section, all singles; pairs thorough) x follow-up queries on the same recursor, plus parameterised termination families, on the real Recursor under virtual time",
+   text="120 delegation graphs (in-zone/sibling/parent/child NS names, with/without glue, cycles) x queries x recursion limits; every graph x hostile zone x 9 injection kinds x 3 sections with follow-ups on the same recursor (44 k / 373 k cases); lame-server kinds; CNAME chains/loops, NS-for-NS chains, glueless cycles, delegation depth as growth families; stub alias chasing. Oracle: provenance of every returned record (published data or inside the hostile zone's bailiwick), no marker/denied address contacted or returned, follow-ups equal the attacker-free run, exchanges below an explicit generous bound and constant in n beyond the configured limit.",
+   note="Trusted: the simulated internet; hostility is per zone; non-validating recursor only.",
+   design="6/C19, 11"),
+ "C20": dict(level="exploration", engine="E-ENUM",
+   technique="exhaustive enumeration of ALL layout vectors of an independent master-file printer for 1-record files, ordered pairs (and triples) of records, plus all short garbage strings, complete single-edit neighbourhoods of seed files and growth families, through the real zone-file parser",
+   text="92 records (all 22 parser-supported types x value shapes x owner/TTL/class envelopes) printed under every legal layout vector (name forms, TTL/class inheritance and order, $ORIGIN/$TTL, separators, comments, parentheses over 1-3 lines, quoted/unquoted strings, line endings): 5.5 M single-record and 6.6 M (quick) / 104 M (thorough) two-record files, 11.6 M triples; the parsed record set must equal the printed one. Malformed: all strings of length <=5/6 over 15 characters, 222 k single edits of 63 seeds (14 M double edits thorough), 25 growth families to 2^16, $INCLUDE cases; parse() must return, never panic or hang.",
+   note="Trusted: vref::masterfile printer (declares a layout illegal when it would not denote the record). \\DDD escapes and escapes in unquoted strings are observations.",
+   design="6/C20, 11"),
 }
 
 NOT_BUILT_REASON = "check not built yet at this commit (design in DESIGN.md section 6); not claimed until its quick tier runs clean"
